@@ -7,6 +7,7 @@ mod hist;
 mod model;
 mod oracle;
 mod props_model;
+mod props_path;
 mod rng;
 
 use ctx::Args;
@@ -23,7 +24,7 @@ fn parse_args() -> Args {
         skip_until: None,
         verbose: false,
         extra: vec![],
-        cpu_budget_s: 90.0,
+        cpu_budget_s: 40.0,
     };
     let argv: Vec<String> = std::env::args().skip(1).collect();
     let mut i = 0;
@@ -63,6 +64,10 @@ fn main() {
         "C01" => props_model::run_c01(&a),
         "C02" => props_model::run_c02(&a),
         "C03" => props_model::run_c03(&a),
+        "C04" => props_path::run_c04(&a),
+        "C05" => props_path::run_c05(&a),
+        "C06" => props_path::run_c06(&a),
+        "C08" => props_path::run_c08(&a),
         "C09" => props_model::run_c09(&a),
         "C15" => props_model::run_c15(&a),
         other => {
